@@ -1,0 +1,49 @@
+# Contracts for the verifier in /verif (comment-only file: it contributes no code and is never imported).
+# Read by /verif/pyvc/pyvc.py, which symbolically executes the real closure RequestsHook._hook_module._request of
+# hooks/requests.py: how the hook combines the fail-safe and the traffic filter.
+
+#@ module hooks/requests.py
+#@ const HEADERS_KWARGS_KEY = "headers"
+# deterministic observers (trusted): the fail-safe's verdict and the traffic filter's verdict are proved in their own units
+#@ extern .state_ok
+#@   returns bool
+#@ extern .is_allowed
+#@   args host, headers
+#@   returns bool
+#@ extern .host
+#@   returns opaque
+#@ extern .pop
+#@   args key, default
+#@   returns opaque
+#@ extern generate_request_id
+#@   returns opaque
+#@ extern URL
+#@   args u
+#@   returns opaque
+# the two ways out (trusted frames, ghost effect): through the gateway, or straight to the provider
+#@ extern self._make_request
+#@   returns opaque
+#@   sets gVia = True
+#@   raises ProxyErrorException
+#@   raises ConnectionError
+#@ extern self._original_function
+#@   returns opaque
+#@   sets gDirect = True
+
+#@ class RequestsHook
+#@   field _fail_safe: opaque
+#@   field _traffic_filter: opaque
+#@   field _connection_config: opaque
+#@   field gVia: bool
+#@   field gDirect: bool
+
+# A call is sent through the gateway only when the fail-safe is closed AND the traffic filter allows the destination;
+# otherwise it goes straight to the provider with its original headers; a gateway-side failure that the fail-safe
+# swallows falls back to the provider, nothing else is swallowed.
+#@ method RequestsHook._hook_module._request
+#@   prop C19
+#@   requires self.gVia == False and self.gDirect == False
+#@   ensures[gateway-only-when-healthy-and-allowed] self.gVia ==> self._fail_safe.state_ok and self._traffic_filter.is_allowed(str(url_obj.host), original_headers)
+#@   ensures[otherwise-straight-to-the-provider] returned() and not (self._fail_safe.state_ok and self._traffic_filter.is_allowed(str(url_obj.host), original_headers)) ==> self.gDirect and not self.gVia
+#@   ensures[always-sent-somewhere] returned() ==> self.gVia or self.gDirect
+#@   ensures[allowed-and-healthy-goes-to-the-gateway] self._fail_safe.state_ok and self._traffic_filter.is_allowed(str(url_obj.host), original_headers) ==> self.gVia
